@@ -181,6 +181,11 @@ def r1(case, rec):
     z = run(base, np.zeros((L,) * nd), xx, T0, T, theta_scale=th1)
     z2 = run(base, np.zeros((L,) * nd), xx, T0, T, theta_scale=2.5 * th1)
     require_close(z2, 2.5 * z, 1e-9, 'result from phi=0 scales with theta0', rec, key='theta-scaling', atol=1e-300)
+    # ... and is not identically zero: new mutations enter every population that is neither frozen nor mutation-free
+    live = [i for i in range(nd) if not m['frozen'][i] and not (m['nomut'] and m['nomut'][i])]
+    if th1 > 1e-6 and live and T > T0:
+        require(float(np.abs(z).sum()) > 0, '%s started from an empty density with theta0=%g returned an empty density: no mutations entered'
+                % (D.DRIVERS[nd].__name__, th1), driver=D.DRIVERS[nd].__name__)
 
 
 @st.composite
